@@ -10,6 +10,7 @@
 #include <etl/_type_traits/add_pointer.hpp>
 #include <etl/_type_traits/decay.hpp>
 #include <etl/_type_traits/is_invocable_r.hpp>
+#include <etl/_type_traits/is_pointer.hpp>
 #include <etl/_type_traits/is_same.hpp>
 #include <etl/_utility/forward.hpp>
 #include <etl/_utility/swap.hpp>
@@ -60,11 +61,20 @@ struct function_ref;
 template <typename R, typename... Args>
 struct function_ref<R(Args...)> : etl::detail::function_ref<false, R(Args...)> {
     using etl::detail::function_ref<false, R(Args...)>::function_ref;
+
+    // the implicit copy assignment of this class hides the deleted operator= of the base
+    template <typename T>
+        requires(not etl::is_same_v<T, function_ref> and not etl::is_pointer_v<T>)
+    auto operator=(T /*t*/) -> function_ref& = delete;
 };
 
 template <typename R, typename... Args>
 struct function_ref<R(Args...) noexcept> : etl::detail::function_ref<true, R(Args...)> {
     using etl::detail::function_ref<true, R(Args...)>::function_ref;
+
+    template <typename T>
+        requires(not etl::is_same_v<T, function_ref> and not etl::is_pointer_v<T>)
+    auto operator=(T /*t*/) -> function_ref& = delete;
 };
 
 template <typename R, typename... Args>
